@@ -215,57 +215,57 @@ Lemma coord_stop_J : forall r st s, Jcore r s -> consumers s = [] ->
   Jcore r s' /\ (start_d s <> None \/ stopping s = true -> stopping s' = true) /\
   (start_d s = None -> stopping s = false -> same_core (if is_group s then set_stop_requested false s else s) s').
 Proof.
-  intros r st s H Hc. unfold coord_stop.
-  destruct (start_d s) as [idx|] eqn:Sd.
-  2:{ unfold finish_stop. cbn [fst]. split; [|split; [intros [X|X]; [congruence|]|intros _ _]].
-      - ds s. prj. subst. destruct grp; jgo.
-      - ds s. destruct grp; exact X.
-      - ds s. destruct grp; frame. }
-  destruct (stopping s) eqn:Stp.
-  { unfold finish_stop. cbn [fst]. split; [|split; [intros _|intros; congruence]].
-    - ds s. prj. subst. destruct grp; jgo.
-    - ds s. destruct grp; exact Stp. }
-  cut (Jcore r (fst match dc (set_rejoin_needed false (set_stopping true s)) with
-       | DcStale => finish_stop st 2 (set_rejoin_needed false (set_stopping true s))
-       | _ => let (s0, o1) := match dc (set_rejoin_needed false (set_stopping true s)) with
-             | DcActive id => (set_dc DcStale (remove_timer id (set_rejoin_needed false (set_stopping true s))), [OCancelTimer TRejoin id])
-             | _ => (set_rejoin_needed false (set_stopping true s), [])
-             end in
-           let (s1, o2) := match hb_req s0 with
-             | Some rid => if hb_running (set_hb_req None s0) then let (s', o) := hb_stop (set_hb_req None s0) in (s', OCancelReq rid :: o)
-                           else (set_hb_req None s0, [OCancelReq rid])
-             | None => (s0, []) end in
-           let (s2, o3) := if hb_running s1 then hb_stop s1 else (s1, []) in
-           if coord_known s2 && negb (member s2 =? 0)
-           then (set_stops ({| st_idx := st_idx st; st_err := st_err st; st_ph := S2 (next_rid s2) |} :: stops s2) (set_next_rid (next_rid s2 + 1) s2),
-                 o1 ++ o2 ++ o3 ++ [OLeave (next_rid s2) (member s2)])
-           else let (s3, o4) := stop_tail st s2 in (s3, o1 ++ o2 ++ o3 ++ o4) end) /\
-       stopping (fst match dc (set_rejoin_needed false (set_stopping true s)) with
-       | DcStale => finish_stop st 2 (set_rejoin_needed false (set_stopping true s))
-       | _ => let (s0, o1) := match dc (set_rejoin_needed false (set_stopping true s)) with
-             | DcActive id => (set_dc DcStale (remove_timer id (set_rejoin_needed false (set_stopping true s))), [OCancelTimer TRejoin id])
-             | _ => (set_rejoin_needed false (set_stopping true s), [])
-             end in
-           let (s1, o2) := match hb_req s0 with
-             | Some rid => if hb_running (set_hb_req None s0) then let (s', o) := hb_stop (set_hb_req None s0) in (s', OCancelReq rid :: o)
-                           else (set_hb_req None s0, [OCancelReq rid])
-             | None => (s0, []) end in
-           let (s2, o3) := if hb_running s1 then hb_stop s1 else (s1, []) in
-           if coord_known s2 && negb (member s2 =? 0)
-           then (set_stops ({| st_idx := st_idx st; st_err := st_err st; st_ph := S2 (next_rid s2) |} :: stops s2) (set_next_rid (next_rid s2 + 1) s2),
-                 o1 ++ o2 ++ o3 ++ [OLeave (next_rid s2) (member s2)])
-           else let (s3, o4) := stop_tail st s2 in (s3, o1 ++ o2 ++ o3 ++ o4) end) = true).
-  { intros [A B]. split; [|split; [intros _|intros; congruence]].
-    - destruct (dc (set_rejoin_needed false (set_stopping true s))); exact A.
-    - destruct (dc (set_rejoin_needed false (set_stopping true s))); exact B. }
-  ds s. prj. subst.
+  intros r st s H Hc. ds s. prj. subst cs. unfold coord_stop. prj.
+  destruct sd as [idx|].
+  2:{ unfold finish_stop. prj. split; [|split; [intros [X|X]; [congruence|]|intros _ _]].
+      - destruct grp; jgo.
+      - destruct grp; exact X.
+      - destruct grp; frame. }
+  destruct stp.
+  { unfold finish_stop. prj. split; [|split; [intros _|intros; congruence]]; destruct grp; prj; auto; jgo. }
   assert (C2 : cnt has_s2 sts = 0%nat). { destruct H. prj. intuition congruence. }
-  destruct dc0 as [|id|]; unfold finish_stop, hb_stop, remove_timer; prj;
-    [| |destruct grp; split; [jgo|reflexivity]];
-    destruct hbq as [rid|]; prj; destruct hbr; prj; destruct (ck && negb (mem =? 0)); prj.
-  all: try (split; [jgo|reflexivity]).
+  destruct dc0 as [|id|]; unfold finish_stop, hb_stop, remove_timer; prj.
+  3:{ split; [|split; [intros _|intros; congruence]]; destruct grp; prj; auto; jgo. }
+  all: destruct hbq as [rid|]; prj; destruct hbr; prj; destruct (ck && negb (mem =? 0)); prj.
+  all: try (split; [|split; [intros _|intros; congruence]]; [jgo|reflexivity]).
   all: match goal with |- context [stop_tail st ?s0] =>
          let X := fresh in assert (X : Jcore r s0) by jgo;
          let Y := fresh in pose proof (stop_tail_J r st s0 eq_refl C2 X) as Y;
-         destruct (stop_tail st s0) as [s3 o4]; exact Y end.
+         destruct (stop_tail st s0) as [s3 o4]; prj; destruct Y; split; [|split; [intros _|intros; congruence]]; assumption end.
+Qed.
+
+Definition stab_eq (s s' : state) : Prop :=
+  stopping s' = stopping s /\ rejoin_needed s' = rejoin_needed s /\ hb_running s' = hb_running s.
+
+Lemma do_stop_J : forall r idx err s, Jcore r s ->
+  let s' := fst (do_stop idx err s) in
+  Jcore r s' /\
+  (stopping s' = true \/
+   (start_d s = None /\ stopping s = false /\ same_core (set_stop_requested false s) s') \/
+   (is_group s = true /\ consumers s <> [] /\ stop_requested s' = true /\ stab_eq s s')).
+Proof.
+  intros r idx err s H. unfold do_stop.
+  destruct (is_group s) eqn:G.
+  - destruct (consumers (set_stop_requested true s)) as [|c cs'] eqn:C.
+    + assert (J0 : Jcore r (set_stop_requested true s)). { ds s. prj. subst. jgo. }
+      pose proof (coord_stop_J r (mkStop idx err (S2 0)) _ J0 C) as (A & B & D). split; [exact A|].
+      destruct (start_d s) as [i|] eqn:Sd.
+      * left. apply B. left. ds s. prj. congruence.
+      * destruct (stopping s) eqn:Stp.
+        -- left. apply B. right. ds s. exact Stp.
+        -- right. left. repeat split; auto.
+           assert (D' := D (ltac:(ds s; exact Sd)) (ltac:(ds s; exact Stp))).
+           ds s. prj. subst. cbn in D'. exact D'.
+    + unfold begin_shutdown. prj. split.
+      * ds s. prj. subst. jgo.
+      * right. right. ds s. prj. subst. repeat split; auto. discriminate.
+  - pose proof (coord_stop_J r (mkStop idx err (S2 0)) _ H (j1 _ _ H G)) as (A & B & D). split; [exact A|].
+    destruct (start_d s) as [i|] eqn:Sd.
+    * left. apply B. left. congruence.
+    * destruct (stopping s) eqn:Stp.
+      -- left. apply B. right. exact Stp.
+      -- right. left. repeat split; auto. specialize (D eq_refl eq_refl). rewrite G in D.
+         assert (Sr : stop_requested s = false).
+         { destruct (j5 _ _ H Sd) as [X|[X _]]; [congruence|]. unfold pristine in X. intuition. }
+         ds s. prj. subst. exact D.
 Qed.
